@@ -58,7 +58,7 @@ func (s *Sim) runTX(res *Result, horizon time.Duration) {
 	res.TX = &TXResult{}
 	switch tx.Kind {
 	case "retry", "timed":
-		ctx, cancel := context.WithCancel(context.Background())
+		ctx, cancel := simrt.WithCancel(context.Background())
 		if tx.CancelAtNs > 0 {
 			w.At(time.Duration(tx.CancelAtNs), "txcancel", func() { w.Log("tx", "cancel", nil, "", 0); cancel() })
 		}
